@@ -1,7 +1,7 @@
 """Engine for Optimizer.tla (C09, C10, C15): TLC enumerates call sequences (OptCalls.tla), the driver executes them on real Optimize
 objects over generated merit-function families (with fault injection in the user's action), and the recorded calls are validated
 against the trace specification of Optimizer.tla, which names every violated clause."""
-import collections, json, os, random, re, tempfile, concurrent.futures as cf
+import collections, json, os, random, re, shutil, tempfile, concurrent.futures as cf
 from . import tlc, build, par, tlaval
 from .common import SPEC, Machinery, Verdict, seed, tier as get_tier
 from . import opt_driver as od
@@ -63,9 +63,25 @@ def validate(traces, workers=6, batch=400):
     return verdicts, states
 
 
+def design_model(prop, q):
+    """The protocol model (abstract solver, raising action at every evaluation) explored exhaustively: the invariants named after `prop`."""
+    invs = [i for i in ("C09_ok", "C09_restore", "C10_inlim", "C10_flags", "C10_fixed", "C15_best", "C15_reload", "C15_last") if i.startswith(prop)]
+    cfg = os.path.join(tempfile.mkdtemp(prefix="optmodel-"), "OptimizerModel.cfg")
+    with open(cfg, "w") as fh:
+        fh.write("SPECIFICATION Spec\nCONSTANTS\n  MaxCalls = %d\n  MaxFaults = 2\n  Restore = TRUE\n"
+                 '  Scenarios = {"converges", "inconsistent", "matched-start", "nonmonotone"}\n' % (2 if q else 3))
+        fh.write("".join("INVARIANT %s\n" % i for i in invs) + "CHECK_DEADLOCK FALSE\n")
+    r = tlc.run("OptimizerModel.tla", cfg, workers=14, timeout=3000, heap="8g")
+    shutil.rmtree(os.path.dirname(cfg), ignore_errors=True)
+    if not r.ok:
+        raise Machinery("OptimizerModel.tla does not satisfy %s any more (a change of the specification, not of the code):\n%s" % (invs, (r.violation or r.out)[-3000:]))
+    return r, invs
+
+
 def run(prop, level, rule):
     q = get_tier() == "quick"
     v = Verdict(prop, level, get_tier(), rule)
+    rm, minvs = design_model(prop, q)
     scratch = build.build("pure")
     rnd = random.Random(seed())
     seqs, r0 = call_sequences(3 if q else 4)
@@ -107,7 +123,8 @@ def run(prop, level, rule):
     for s in list(readables.values())[:2]:
         v.sample({"calls": [e["ev"] + "->" + e["out"] for e in s["events"]], "first_event": {k: s["events"][0][k] for k in ("ev", "out", "af")}})
     v.add(stats["events"])
-    v.set(states=tstates + r0.distinct, transitions=stats["events"] + r0.states, traces_validated_against_impl=stats["traces"],
+    v.set(states=tstates + r0.distinct + rm.distinct, transitions=stats["events"] + r0.states + rm.states,
+          design_model={"module": "OptimizerModel.tla", "invariants": minvs, "distinct_states": rm.distinct, "depth": rm.depth, "exhaustive": True}, traces_validated_against_impl=stats["traces"],
           distinct_nontrivial=stats["failing_calls"] + stats["twin_checked"], call_sequences_enumerated=len(seqs), problems=nprob,
           driver_stats=dict(stats), violated_clause_instances=dict(nclauses), exhaustive=False)
     v.assume("the numeric content of every measurement (penalties, tolerances, limits, step sizes) is computed by the harness oracle from the user function; TLC decides "
@@ -117,7 +134,9 @@ def run(prop, level, rule):
     return v.finish()
 
 
-RULE = ("OptCalls.tla enumerates every call sequence of length <= 3 (4 thorough) over step (n, take_best, broyden, temporary disable_vary / disable_vary_name / "
+RULE = ("OptimizerModel.tla (the step / solve / reload / tag / clear_log / enable / disable protocol over an abstract solver and an action that may raise at every "
+        "evaluation) is explored exhaustively for the invariants of this property; the code is bound by traces: "
+        "OptCalls.tla enumerates every call sequence of length <= 3 (4 thorough) over step (n, take_best, broyden, temporary disable_vary / disable_vary_name / "
         "disable_target / enable_vary) / solve / reload(first, last, mid, tag) / tag / clear_log / enable / disable; sampled sequences are executed on real Optimize objects over "
         "seeded problems (limits placing the solution outside, per-knob max_step, unit and non-unit weights, Broyden), fault-free and with the user's action raising at "
         "each call position (once / persistently), each next to a twin problem whose designated target computes something else; every call is recorded with oracle "
